@@ -24,7 +24,7 @@ def post(cov, cases, recs):
 
 
 def run(tier, seed):
-    return tracecheck.run(PID, tier, seed, PROFILE, oracle, n_quick=450, n_thorough=8000, post=post, mask=1 | 2 | 8 | 32)
+    return tracecheck.run(PID, tier, seed, PROFILE, oracle, n_quick=450, n_thorough=8000, post=post, mask=1 | 2 | 8 | 32 | 128)
 
 
 def replay(payload):
